@@ -599,6 +599,8 @@ class PathEngine:
 
         def table(x: ast.expr) -> Any:
             # a decision table written as data: {constant / enum member: scalar or flat tuple}
+            if isinstance(x, ast.Call) and ast.unparse(x.func).split(".")[-1] in ("MappingProxyType", "dict", "frozendict") and len(x.args) == 1 and not x.keywords and isinstance(x.args[0], ast.Dict):
+                x = x.args[0]  # a read-only / copied view of a dict display is that table
             if not isinstance(x, ast.Dict) or not x.keys or any(k is None for k in x.keys):
                 return None
             pairs = []
